@@ -907,6 +907,17 @@ func evalFunctionCall(node *jparse.FunctionCallNode, data reflect.Value, env *en
 		return undefined, newEvalError(ErrNonCallable, node.Func, nil)
 	}
 
+	// Go callables are shared by every expression (and every
+	// goroutine) that uses them. Setting the name and context
+	// on the shared object would leak them into other calls of
+	// the same function (e.g. calls nested in this call's own
+	// arguments, or calls in concurrent evaluations), so make
+	// the changes on a copy.
+	if gc, ok := fn.(*goCallable); ok {
+		c := *gc
+		fn = &c
+	}
+
 	if setter, ok := fn.(nameSetter); ok {
 		if sym, ok := node.Func.(*jparse.VariableNode); ok {
 			setter.SetName(sym.Name)
